@@ -766,7 +766,7 @@ pub fn decode_packet(first_byte: u8, body: &[u8], v5: bool) -> DResult<Packet> {
             let has_user = cf & 0x80 != 0;
             if !has_will && (will_qos != 0 || will_retain) { return Err("CONNECT:will-flags-without-will".into()); }
             if will_qos == 3 { return Err("CONNECT:will-qos-3".into()); }
-            if !v5 && has_pass && !has_user { return Err("CONNECT:password-without-username-311".into()); }
+            if !v5 && has_pass && !has_user && !COMPAT_SUBSCRIBE_SUBID_U32.with(|s| s.get()) { return Err("CONNECT:password-without-username-311".into()); }
             p.keep_alive = c.u16("CONNECT:keep-alive")?;
             if v5 {
                 let props = decode_props(&mut c, &[17, 33, 39, 34, 25, 23, 38, 21, 22], false, "CONNECT")?;
@@ -1089,6 +1089,11 @@ impl StreamDecoder {
         }
         out
     }
+}
+
+/// Like decode_all but accepting the recorded SUBSCRIBE subscription-identifier-as-u32 encoding
+pub fn decode_all_compat(bytes: &[u8], v5: bool) -> DResult<Vec<Packet>> {
+    with_compat(|| decode_all(bytes, v5))
 }
 
 /// Decode a complete byte string into packets; error if anything is left over or malformed
